@@ -199,6 +199,20 @@ func (rb *ResponseBuffer) Write(buf []byte) (int, error) {
 	return rb.Buffer.Write(buf)
 }
 
+// Flush implements http.Flusher. While the response is being buffered
+// there is nothing to flush yet: handing the call to the underlying
+// ResponseWriter would commit its header (status 200, without the
+// buffered header fields) behind the back of whoever writes out the
+// buffered response later. When streaming, the call is passed on.
+func (rb *ResponseBuffer) Flush() {
+	if !rb.wroteHeader {
+		rb.WriteHeader(http.StatusOK)
+	}
+	if rb.stream {
+		rb.ResponseWriterWrapper.Flush()
+	}
+}
+
 // Buffered returns whether rb has decided to buffer the response.
 func (rb *ResponseBuffer) Buffered() bool {
 	return !rb.stream
